@@ -110,4 +110,204 @@ theorem transpose_entry (e : Expr) (m n i j : Nat) (hs : shape e = [m, n]) (hi :
     rw [Nat.add_comm, Nat.add_mul_mod_self_right, Nat.mod_eq_of_lt hj]
   simp [transposeE, len, ncols, hs, ev, evL_map_range, hk, hd, hmod, at_sound_aux]
 
+/-- shape discipline enforced by the Python constructors (their asserts / raises) -/
+def WSh : Expr → Bool
+  | litvec es => (es.map fun e => WSh e && shape e == []).all id
+  | litmat m n es => es.length == m * n && (es.map fun e => WSh e && shape e == []).all id
+  | neg x => WSh x && shape x == []
+  | builtin _ x => WSh x && shape x == []
+  | sop _ x y => WSh x && WSh y && shape x == [] && shape y == []
+  | top _ x y => WSh x && WSh y && shape x == shape y && ((shape x).length == 1 || (shape x).length == 2)
+  | cross x y => WSh x && WSh y && shape x == [3] && shape y == [3]
+  | outer x y => WSh x && WSh y && (shape x).length == 1 && (shape y).length == 1
+  | matvec A x => WSh A && WSh x && (shape A).length == 2 && shape x == [ncols A]
+  | matmat A B => WSh A && WSh B && (shape A).length == 2 && (shape B).length == 2 && len B == ncols A
+  | _ => true
+
+/-- the entries of an expression of the given shape -/
+def InRange : List Nat → Nat → Nat → Prop
+  | [], _, _ => True
+  | [n], i, j => i < n ∧ j = 0
+  | [m, n], i, j => i < m ∧ j < n
+  | _, _, _ => False
+
+variable {α : Type} (o : Ops α) (ρ : Env α)
+
+theorem toLit1_shape (e : Expr) (h : (shape e).length ≤ 2) : shape (toLit1 e) = shape e := by
+  cases e <;> simp only [toLit1] <;> (try rfl)
+  all_goals
+    generalize hs : shape _ = s at *
+    match s, h with
+    | [], _ => simp [hs]
+    | [n], _ => simp [shape]
+    | [m, n], _ => simp [shape]
+
+theorem toLit1_sound (e : Expr) (i j : Nat) (h : InRange (shape e) i j) :
+    ev o ρ (toLit1 e) i j = ev o ρ e i j := by
+  generalize hs : shape e = s at h
+  match s, h with
+  | [], _ => cases e <;> simp_all [toLit1, shape]
+  | [n], ⟨hi, hj⟩ => subst hj; exact toLit1_vec o ρ e n i hs hi
+  | [m, n], ⟨hi, hj⟩ => exact toLit1_mat o ρ e m n i j hs hi hj
+  | _ :: _ :: _ :: _, h => exact absurd h (by simp [InRange])
+
+
+theorem shape_len1 {s : List Nat} (h : s.length = 1) : ∃ n, s = [n] := by
+  match s, h with
+  | [n], _ => exact ⟨n, rfl⟩
+
+theorem shape_len2 {s : List Nat} (h : s.length = 2) : ∃ m n, s = [m, n] := by
+  match s, h with
+  | [m, n], _ => exact ⟨m, n, rfl⟩
+
+theorem map_range_congr {β : Type} (f g : Nat → β) (n : Nat) (h : ∀ k, k < n → f k = g k) :
+    (List.range n).map f = (List.range n).map g := by
+  apply List.map_congr_left
+  intro k hk
+  exact h k (List.mem_range.mp hk)
+
+/-- **literal expansion of a whole tree** (`vf.transform(_to_literal_vec_mat)`): for every
+well-shaped expression, the shape is kept and every entry is preserved. -/
+theorem toLit_sound (e : Expr) : WSh e = true →
+    shape (toLit e) = shape e ∧ ∀ i j, InRange (shape e) i j → ev o ρ (toLit e) i j = ev o ρ e i j := by
+  induction e using Expr.rec
+    (motive_2 := fun es => (es.map fun e => WSh e && shape e == []).all id = true →
+      ∀ i, evL o ρ (es.map toLit) i = evL o ρ es i) with
+  | nil => simp
+  | cons e es ihe ihes =>
+    rename_i h i
+    simp only [List.map_cons, List.all_cons, id, Bool.and_eq_true, beq_iff_eq] at h
+    cases i with
+    | zero =>
+      simp only [List.map_cons, evL]
+      exact (ihe h.1.1).2 0 0 (by rw [h.1.2]; trivial)
+    | succ i => simpa [evL] using ihes h.2 i
+  | const v => intro _; simp [toLit]
+  | varref v I D p => intro _; simp [toLit]
+  | pderiv b D ph => intro _; simp [toLit]
+  | gw a => intro _; simp [toLit]
+  | dx => intro _; simp [toLit]
+  | ds => intro _; simp [toLit]
+  | litvec es ih =>
+    intro h
+    simp only [WSh] at h
+    refine ⟨by simp [toLit, shape], fun i j _ => ?_⟩
+    simp only [toLit, ev]
+    exact ih h i
+  | litmat m n es ih =>
+    intro h
+    simp only [WSh, Bool.and_eq_true] at h
+    refine ⟨by simp [toLit, shape], fun i j _ => ?_⟩
+    simp only [toLit, ev]
+    exact ih h.2 _
+  | neg x ih =>
+    intro h
+    simp only [WSh, Bool.and_eq_true, beq_iff_eq] at h
+    have := ih h.1
+    refine ⟨by simp [toLit, toLit1, shape], fun i j _ => ?_⟩
+    simp only [toLit, toLit1, shape, ev]
+    rw [this.2 0 0 (by rw [h.2]; trivial)]
+  | builtin f x ih =>
+    intro h
+    simp only [WSh, Bool.and_eq_true, beq_iff_eq] at h
+    have := ih h.1
+    refine ⟨by simp [toLit, toLit1, shape], fun i j _ => ?_⟩
+    simp only [toLit, toLit1, shape, ev]
+    rw [this.2 0 0 (by rw [h.2]; trivial)]
+  | sop op x y ihx ihy =>
+    intro h
+    simp only [WSh, Bool.and_eq_true, beq_iff_eq] at h
+    obtain ⟨⟨⟨hx, hy⟩, hsx⟩, hsy⟩ := h
+    refine ⟨by simp [toLit, toLit1, shape], fun i j _ => ?_⟩
+    simp only [toLit, toLit1, shape, ev]
+    rw [(ihx hx).2 0 0 (by rw [hsx]; trivial), (ihy hy).2 0 0 (by rw [hsy]; trivial)]
+  | top op x y ihx ihy =>
+    intro h
+    simp only [WSh, Bool.and_eq_true, beq_iff_eq, Bool.or_eq_true] at h
+    obtain ⟨⟨⟨hx, hy⟩, hs⟩, hl⟩ := h
+    have hx' := ihx hx
+    have hy' := ihy hy
+    have hsh : shape (top op (toLit x) (toLit y)) = shape (top op x y) := by simp [shape, hx'.1]
+    have hle : (shape (top op (toLit x) (toLit y))).length ≤ 2 := by
+      rw [hsh]; simp only [shape]; rcases hl with h1 | h1 <;> omega
+    refine ⟨by simp only [toLit]; rw [toLit1_shape _ hle, hsh], fun i j hr => ?_⟩
+    simp only [toLit]
+    rw [toLit1_sound o ρ _ i j (by rw [hsh]; exact hr)]
+    simp only [ev]
+    simp only [shape] at hr
+    rw [hx'.2 i j hr, hy'.2 i j (by rw [← hs]; exact hr)]
+  | cross x y ihx ihy =>
+    intro h
+    simp only [WSh, Bool.and_eq_true, beq_iff_eq] at h
+    obtain ⟨⟨⟨hx, hy⟩, hsx⟩, hsy⟩ := h
+    have hx' := ihx hx
+    have hy' := ihy hy
+    have hsh : shape (cross (toLit x) (toLit y)) = shape (cross x y) := by simp [shape, hx'.1]
+    have hle : (shape (cross (toLit x) (toLit y))).length ≤ 2 := by rw [hsh]; simp [shape, hsx]
+    refine ⟨by simp only [toLit]; rw [toLit1_shape _ hle, hsh], fun i j hr => ?_⟩
+    simp only [toLit]
+    rw [toLit1_sound o ρ _ i j (by rw [hsh]; exact hr)]
+    have ex : ∀ k, k < 3 → ev o ρ (toLit x) k 0 = ev o ρ x k 0 := fun k hk => hx'.2 k 0 (by rw [hsx]; exact ⟨hk, rfl⟩)
+    have ey : ∀ k, k < 3 → ev o ρ (toLit y) k 0 = ev o ρ y k 0 := fun k hk => hy'.2 k 0 (by rw [hsy]; exact ⟨hk, rfl⟩)
+    rcases i with _ | _ | i <;> simp [ev, ex, ey]
+  | outer x y ihx ihy =>
+    intro h
+    simp only [WSh, Bool.and_eq_true, beq_iff_eq] at h
+    obtain ⟨⟨⟨hx, hy⟩, hlx⟩, hly⟩ := h
+    have hx' := ihx hx
+    have hy' := ihy hy
+    obtain ⟨nx, hnx⟩ := shape_len1 hlx
+    obtain ⟨ny, hny⟩ := shape_len1 hly
+    have hsh : shape (outer (toLit x) (toLit y)) = shape (outer x y) := by simp [shape, hx'.1, hy'.1]
+    have hle : (shape (outer (toLit x) (toLit y))).length ≤ 2 := by rw [hsh]; simp [shape]
+    refine ⟨by simp only [toLit]; rw [toLit1_shape _ hle, hsh], fun i j hr => ?_⟩
+    simp only [toLit]
+    rw [toLit1_sound o ρ _ i j (by rw [hsh]; exact hr)]
+    simp only [shape, hnx, hny, List.headD_cons, InRange] at hr
+    simp only [ev]
+    rw [hx'.2 i 0 (by rw [hnx]; exact ⟨hr.1, rfl⟩), hy'.2 j 0 (by rw [hny]; exact ⟨hr.2, rfl⟩)]
+  | matvec A x ihA ihx =>
+    intro h
+    simp only [WSh, Bool.and_eq_true, beq_iff_eq] at h
+    obtain ⟨⟨⟨hA, hx⟩, hlA⟩, hsx⟩ := h
+    have hA' := ihA hA
+    have hx' := ihx hx
+    obtain ⟨m, n, hmn⟩ := shape_len2 hlA
+    have hn : ncols A = n := by simp [ncols, hmn]
+    have hsh : shape (matvec (toLit A) (toLit x)) = shape (matvec A x) := by simp [shape, hA'.1]
+    have hle : (shape (matvec (toLit A) (toLit x))).length ≤ 2 := by rw [hsh]; simp [shape]
+    refine ⟨by simp only [toLit]; rw [toLit1_shape _ hle, hsh], fun i j hr => ?_⟩
+    simp only [toLit]
+    rw [toLit1_sound o ρ _ i j (by rw [hsh]; exact hr)]
+    simp only [shape, hmn, List.headD_cons, InRange] at hr
+    simp only [ev, len, hx'.1, hsx, hn, List.headD_cons]
+    congr 1
+    apply map_range_congr
+    intro k hk
+    rw [hA'.2 i k (by rw [hmn]; exact ⟨hr.1, hk⟩), hx'.2 k 0 (by rw [hsx, hn]; exact ⟨hk, rfl⟩)]
+  | matmat A B ihA ihB =>
+    intro h
+    simp only [WSh, Bool.and_eq_true, beq_iff_eq] at h
+    obtain ⟨⟨⟨⟨hA, hB⟩, hlA⟩, hlB⟩, hk⟩ := h
+    have hA' := ihA hA
+    have hB' := ihB hB
+    obtain ⟨m, n, hmn⟩ := shape_len2 hlA
+    obtain ⟨m', n', hmn'⟩ := shape_len2 hlB
+    have hn : ncols A = n := by simp [ncols, hmn]
+    have hm' : m' = n := by simpa [len, hmn', hn] using hk
+    subst hm'
+    have hsh : shape (matmat (toLit A) (toLit B)) = shape (matmat A B) := by simp [shape, hA'.1, hB'.1]
+    have hle : (shape (matmat (toLit A) (toLit B))).length ≤ 2 := by rw [hsh]; simp [shape]
+    refine ⟨by simp only [toLit]; rw [toLit1_shape _ hle, hsh], fun i j hr => ?_⟩
+    simp only [toLit]
+    rw [toLit1_sound o ρ _ i j (by rw [hsh]; exact hr)]
+    simp only [shape, hmn, hmn', List.headD_cons, InRange] at hr
+    have hr2 : j < n' := by simpa using hr.2
+    simp only [ev, ncols, hA'.1, hmn]
+    congr 1
+    apply map_range_congr
+    intro k hk
+    have hk' : k < m' := by simpa using hk
+    rw [hA'.2 i k (by rw [hmn]; exact ⟨hr.1, hk'⟩), hB'.2 k j (by rw [hmn']; exact ⟨hk', hr2⟩)]
+
 end Pyiga.VForm
